@@ -7,9 +7,9 @@ props = {json.loads(l)["id"]: json.loads(l) for l in open(os.path.join(VERIF, "p
 lines = [l.rstrip("\n") for l in open(os.path.join(VERIF, "notes", "seeded_results.txt")) if " | " in l]
 latest = {}
 for l in lines:
-    m = re.match(r"(\S+) (C\d+) (/tmp/seed(2?)-(C\d+)/out/(\d+)) \| (.*) \| (.*)", l)
+    m = re.match(r"(\S+) (C\d+) (/tmp/seed([23]?)-(C\d+)/out/(\d+)) \| (.*) \| (.*)", l)
     if m:
-        latest[(m.group(2), ("r2-" if m.group(4) else "") + m.group(6))] = (m.group(3), m.group(7), m.group(8))
+        latest[(m.group(2), (("r%s-" % m.group(4)) if m.group(4) else "") + m.group(6))] = (m.group(3), m.group(7), m.group(8))
 for (pid, i), (src, conf, res) in sorted(latest.items()):
     dst = os.path.join(VERIF, "seeded", "%s-%s" % (pid, i))
     if not os.path.isdir(src):
